@@ -46,7 +46,7 @@ CLAIMED = {
    ref='DESIGN.md section 4 (C11)', note='Values and labels are compared numerically (an empty float64 input index turns int labels into equal floats).',
    technique='TLA+ spec SFConcat model checked with TLC; state dump replayed into the code; recorded results validated by a TLC trace spec'),
  'C07': dict(
-   text='TLC checks NoLoss on the whole dtype-resolution table (SFCoerce.Resolve over 24 dtype tokens, every ordered pair, symbolic element classes with their representability written out): the resolved dtype holds every natural element of both operands except in the cells named KnownLossy, and a strict instance without the exception fails (negative control = the library's int64/uint64-with-float design decision); the table is replayed against util.resolve_dtype and np.result_type; 19 merge sites (concat, reindex/shift fill, assign element/array, fillna, overlay, insert, from_records, iterables, row consolidation, IndexGO.append, FrameGO growth ...) are executed on dtype pairs x 15 element values and TLC (Trace_C07) judges every recorded merge: each stored element is the supplied one (SameElement), the result dtype is the resolution, untouched columns keep their dtype.',
+   text='TLC checks NoLoss on the whole dtype-resolution table (SFCoerce.Resolve over 24 dtype tokens, every ordered pair, symbolic element classes with their representability written out): the resolved dtype holds every natural element of both operands except in the cells named KnownLossy, and a strict instance without the exception fails (negative control = the int64/uint64-with-float design decision); the table is replayed against util.resolve_dtype and np.result_type; 19 merge sites (concat, reindex/shift fill, assign element/array, fillna, overlay, insert, from_records, iterables, row consolidation, IndexGO.append, FrameGO growth ...) are executed on dtype pairs x 15 element values and TLC (Trace_C07) judges every recorded merge: each stored element is the supplied one (SameElement), the result dtype is the resolution, untouched columns keep their dtype.',
    ref='DESIGN.md section 4 (C07)', note='Instants and durations are compared unit-free; a rejected merge (exception) stores nothing and is not a coercion. str with bytes is outside the claim.',
    technique='TLA+ spec SFCoerce model checked with TLC; resolution table replayed against the code; recorded merges validated by a TLC trace spec'),
 }
